@@ -162,7 +162,7 @@ def split_hist(lines):
 
 def main(tier, replay=None):
     c = V.Check(PID, tier)
-    proofs_ok = c.proofs(gen_only=[])
+    proofs_ok = c.proofs(gen_only=["Consts.v"])
     c.log("proofs:", "ok" if proofs_ok else c.proof_break)
     outs, err = V.go_build(["c12"])
     if outs is None:
